@@ -287,6 +287,12 @@ impl<T: ?Sized> RwLock<T> {
                 _ => (),
             };
             drop(state);
+
+            if !acquired {
+                // We took a permit above but are reporting failure: give it back, otherwise the lock
+                // could never be acquired for writing again.
+                self.semaphore.release(typ.num_permits());
+            }
         }
 
         trace!(
